@@ -1,17 +1,19 @@
 /-
 C13 — malformed ammo, scenario or config input is rejected, never crashes or hangs.
 
-All theorems are about the REPAIRED code (`fixed := true`, fixes/C13-*.diff) unless a name says
-`unrepaired`; they quantify over ALL inputs (all byte strings, all ints, all paths, all oracles for
-the third-party `url.Parse`), with no size bound.  The models (`Pandora.Model.C13*`) make every
-partial Go operation an explicit `panic` outcome, so "no panic" is a real statement: it is proved
-by exhibiting the bound each slice / index / remainder / `Intn` / `make` relies on.
+The models (`Pandora.Model.C13*`) make every partial Go operation an explicit outcome - slice / index expression,
+`make` with a negative or absurd size, integer remainder and division, `Intn`, type assertion, method call on a nil
+interface - so "no panic" is a real statement: it is proved by exhibiting the bound each operation relies on.
+Every model carries the code variant `fixed : Bool`: `true` is the repaired code (the `fix:` commits of /repo and
+fixes/C13-*.diff), `false` the tree as found. All theorems quantify over ALL inputs (all byte strings, all integers,
+all paths, all weight lists, all oracles for the third-party `url.Parse` / jsoniter), with no size bound.
 
-* `C13_no_panic_*`      the function returns a value or an error, never panics or dies
-* `C13_rejected_*`      a malformed input is answered by an error
-* `C13_prefix_preserved_*` entries before the malformed part are delivered exactly as without it
-* `C13_terminates_*`    the decoding loop stops (measure: unread bytes)
-* `C13_unrepaired_*`    the same models with `fixed := false` (the tree as found) do panic on the witnesses
+* `C13_no_panic`             the function returns a value or an error, never panics or dies   (+ one theorem per component)
+* `C13_rejected_or_skipped`  a malformed input is answered by an error, or skipped with continue_on_error
+* `C13_prefix_preserved`     entries before the malformed part are delivered exactly as without it
+* `C13_terminates`           the decoding loops stop (measure: unread bytes), the GCD loop stops, an empty pass is not repeated
+* `…_counterexample`         the statement for `fixed := false` is refuted by the witness of the defect
+* `C13_unrepaired_*`         the same witnesses, as computed facts about the tree as found
 -/
 import Pandora.Proofs.C13Ammo
 import Pandora.Proofs.C13Funcs
